@@ -89,4 +89,11 @@ PROPS = {
         trusted_base=COMMON_TB + ["Codegen.render_field is a hand model of ExpandedField::render; Codegen.v as a whole (selection expansion, naming, item order) is tied to the implementation by RunGen.gen_corr: the emitted items must be EQUAL to the model's on every generated program", "Schema.schema_of_sdl models the SDL builder; the JSON-format cases compare the implementation's JSON path with the model's SDL path (so they also depend on C07 holding on the implementation)", "rustc's meaning of #[deprecated] / #[deprecated(note = ...)] and of an absent field (use is a compile error)"],
         assumptions=['`exercises` reports how many cases select no deprecated field at all'],
     ),
+    "C05": dict(
+        coq_props=['Properties/C05.v'],
+        run_modules=['RunC05.v'],
+        harness_cmd='c05',
+        trusted_base=COMMON_TB + ["Codegen.generate / module_of / select_operation model lib.rs:133-150, generated_module.rs and query.rs:551; tied by RunGen.gen_corr (emitted modules, incl. OPERATION_NAME, QUERY, struct declaration, build_query wiring, must EQUAL the model's)", "QueryBody is translated from graphql_client/src/lib.rs; Serde.ser is the specification of serde's derive(Serialize) (validated in-process on QueryBody itself and by C15/C16)", "quote!'s printing of the query string literal and rustc's reading of it (QUERY constant): observed byte-for-byte through syn's LitStr on the emitted tokens, not compiled", 'the document text is opaque in the theorems (they hold for every text)'],
+        assumptions=['operation names are pairwise distinct under the chosen normalization (otherwise both operations map to one module name and nothing compiles: K3)'],
+    ),
 }
